@@ -32,16 +32,22 @@ VARIANTS = [
         {"file": DES, "old": "                    zero_count = c - 1\n                    decode_buf.extend(b\"\\x00\" * zero_count)\n",
          "new": "                    zero_count = wrapped_zeros + c - 1\n                    decode_buf.extend(b\"\\x00\" * zero_count)\n"
                 "                    wrapped_zeros = 0\n"},
-        {"file": DES, "old": "                    decode_buf.append(c)\n\n        return decode_buf",
-         "new": "                    decode_buf.append(c)\n\n        decode_buf.extend(b\"\\x00\" * wrapped_zeros)\n        return decode_buf"}]},
+        {"file": DES, "old": "                raise ValueError(\"Unreasonably large zerocoded message\")\n\n        return decode_buf",
+         "new": "                raise ValueError(\"Unreasonably large zerocoded message\")\n\n        decode_buf.extend(b\"\\x00\" * wrapped_zeros)\n        return decode_buf"}]},
     # ------------------------------------------------------------------ R1 preserving
     {"name": "P R1 cap hoisted into a module constant", "expect": "silent", "edits": [
         {"file": DES, "old": "LOG = getLogger('message.udpdeserializer')\n", "new": "LOG = getLogger('message.udpdeserializer')\n_MAX_EXPANDED = 0x3000\n"},
         {"file": DES, "old": "if len(decode_buf) > 0x3000:", "new": "if len(decode_buf) > _MAX_EXPANDED:"}]},
-    {"name": "P R1 cap tested at the end of each iteration (still bounded)", "expect": "silent", "edits": [
-        {"file": DES, "old": _CAP, "new": ""},
-        {"file": DES, "old": "                    decode_buf.append(c)\n\n        return decode_buf",
-         "new": "                    decode_buf.append(c)\n" + _CAP + "\n        return decode_buf"}]},
+    {"name": "R1 cap looked at before the next byte instead of after the expansion (revert of eec692c)", "expect": "C03.R1", "edits": [
+        {"file": DES, "old": "\n            # Well beyond what the viewer allows zerocoding to expand to\n" + _CAP, "new": ""},
+        {"file": DES, "old": "        for c in msg_buf:\n            if c == 0x00:\n                # Always have",
+         "new": "        for c in msg_buf:\n" + _CAP + "            if c == 0x00:\n                # Always have"}]},
+    {"name": "P R1 cap tested both before and after each byte", "file": DES, "expect": "silent",
+     "old": "        for c in msg_buf:\n            if c == 0x00:\n                # Always have",
+     "new": "        for c in msg_buf:\n" + _CAP + "            if c == 0x00:\n                # Always have"},
+    {"name": "R1 cap skipped for literal bytes (continue before the test)", "file": DES, "expect": "C03.R1",
+     "old": "                else:\n                    decode_buf.append(c)\n",
+     "new": "                else:\n                    decode_buf.append(c)\n                    continue\n"},
     {"name": "P R1 rename buffer and loop variable", "expect": "silent", "edits": [
         {"file": DES, "old": "decode_buf", "new": "expanded", "all": True},
         {"file": DES, "old": "        for c in msg_buf:", "new": "        for byte in msg_buf:"},
@@ -168,14 +174,16 @@ VARIANTS = [
     {"name": "P R1 cap is an optional parameter with the cap as default", "expect": "silent", "edits": [
         {"file": DES, "old": "    def zero_code_expand(msg_buf: bytes):\n", "new": "    def zero_code_expand(msg_buf: bytes, limit: int = 0x3000):\n"},
         {"file": DES, "old": "if len(decode_buf) > 0x3000:", "new": "if len(decode_buf) > limit:"}]},
-    {"name": "P R1 cap checked by a generator that feeds the loop", "expect": "silent", "edits": [
-        {"file": DES, "old": "        for c in msg_buf:\n            # Well beyond what the viewer allows zerocoding to expand to\n" + _CAP,
+    {"name": "P R1 bytes fed through a plain generator", "file": DES, "expect": "silent",
+     "old": "        for c in msg_buf:\n            if c == 0x00:\n                # Always have",
+     "new": "        def _feed():\n            for b in msg_buf:\n                yield b\n\n"
+            "        for c in _feed():\n            if c == 0x00:\n                # Always have"},
+    {"name": "R1 generator checks the cap before handing out the next byte and the loop no longer does", "expect": "C03.R1", "edits": [
+        {"file": DES, "old": "\n            # Well beyond what the viewer allows zerocoding to expand to\n" + _CAP, "new": ""},
+        {"file": DES, "old": "        for c in msg_buf:\n            if c == 0x00:\n                # Always have",
          "new": "        def _guarded():\n            for b in msg_buf:\n                if len(decode_buf) > 0x3000:\n"
                 "                    raise ValueError(\"Unreasonably large zerocoded message\")\n                yield b\n\n"
-                "        for c in _guarded():\n"}]},
-    {"name": "R1 generator feeding the loop checks nothing", "expect": "C03.R1", "edits": [
-        {"file": DES, "old": "        for c in msg_buf:\n            # Well beyond what the viewer allows zerocoding to expand to\n" + _CAP,
-         "new": "        def _guarded():\n            for b in msg_buf:\n                yield b\n\n        for c in _guarded():\n"}]},
+                "        for c in _guarded():\n            if c == 0x00:\n                # Always have"}]},
     {"name": "P R2 encoder over itertools.groupby runs with a divmod split", "expect": "silent", "edits": [
         {"file": SER, "old": "import copy\n", "new": "import copy\nimport itertools\n"},
         {"file": SER, "old": "        zero_count = 0\n\n        def _terminate_zeros():\n            nonlocal zero_count\n" + _TERMINATE +
